@@ -78,11 +78,18 @@ def idx_rule(rep, cfg, path, out):
             continue
         ln = int(m.group(1))
         x = idx
-        if x.op == "cast":
+        narrow = None          # the narrowest integer type the value passed through bounds it
+        while x.op == "cast":
+            w_ = {"u8": 8, "u16": 16, "u32": 32}.get(x.args[0])
+            if w_ is not None:
+                narrow = w_ if narrow is None else min(narrow, w_)
             x = x.args[1]
         ok = False
         why = Tm.show(idx, maxdepth=3)
-        if x.op == "band" and Tm.is_lit(x.args[1]):
+        if narrow is not None and (1 << narrow) <= ln:
+            ok = True
+            why = "value passed through u%d (< %d), table length %d" % (narrow, 1 << narrow, ln)
+        elif x.op == "band" and Tm.is_lit(x.args[1]):
             mask = x.args[1].args[0]
             ok = 0 <= mask < ln
             why = "mask %#x, table length %d" % (mask, ln)
@@ -135,7 +142,7 @@ def window_rule(rep, cfg, path, out):
         if t.op == "index" and table_name(t.args[0]) and re.match(r"g\d+$", table_name(t.args[0])):
             kk = int(table_name(t.args[0])[1:])
             x = t.args[1]
-            if x.op == "cast":
+            while x.op == "cast":
                 x = x.args[1]
             sh = None
             if x.op == "band":
